@@ -125,14 +125,14 @@ fn pure(m: &mut Monitor, cfg: &Config) {
         };
         let mut rng = Rng::derive(cfg.seed, "c12-pure", ci);
         for k in 0..reps {
-            let tr = rng.range(pc.tr_min.max(0.5), 0.97);
+            let tr = rng.range(pc.tr_min.max(0.5), 0.99);
             let t = Temperature::from_reduced(tr * tc);
             let Ok(reference) = PhaseEquilibrium::pure(&eos, t, None, SolverOptions::default()) else {
                 continue;
             };
             let case = ci * 100 + k as u64;
             // a previous equilibrium up to 0.3 T_c away
-            let tr0 = (tr + rng.range(-0.3, 0.3)).clamp(pc.tr_min.max(0.46), 0.985);
+            let tr0 = (tr + rng.range(-0.3, 0.3)).clamp(pc.tr_min.max(0.46), 0.99);
             let Ok(init) = PhaseEquilibrium::pure(&eos, Temperature::from_reduced(tr0 * tc), None, SolverOptions::default()) else {
                 continue;
             };
@@ -162,7 +162,7 @@ fn pure(m: &mut Monitor, cfg: &Config) {
 
 fn mixtures(m: &mut Monitor, cfg: &Config) {
     let pairs = hydrocarbon_pairs(1.5);
-    let n = cfg.tier.pick(8_000, 150_000);
+    let n = cfg.tier.pick(8_000, 400_000);
     let idx: Vec<u64> = (0..n).collect();
     par_cases(m, &idx, |m, _, &i| {
         let mut rng = Rng::derive(cfg.seed, "c12-mix", i);
@@ -247,7 +247,7 @@ fn mixtures(m: &mut Monitor, cfg: &Config) {
 fn diagrams(m: &mut Monitor, cfg: &Config) {
     let cases = shipped_pure_cases();
     let pairs = hydrocarbon_pairs(1.5);
-    let n = cfg.tier.pick(800, 6_000);
+    let n = cfg.tier.pick(800, 20_000);
     let idx: Vec<u64> = (0..n).collect();
     par_cases(m, &idx, |m, _, &i| {
         let mut rng = Rng::derive(cfg.seed, "c12-diag", i);
@@ -420,7 +420,7 @@ fn diagrams(m: &mut Monitor, cfg: &Config) {
 
 fn constructors(m: &mut Monitor, cfg: &Config) {
     let col = Collections::load();
-    let n = cfg.tier.pick(3_000, 100_000);
+    let n = cfg.tier.pick(3_000, 300_000);
     let idx: Vec<u64> = (0..n).collect();
     par_cases(m, &idx, |m, _, &i| {
         let mut rng = Rng::derive(cfg.seed, "c12-ctor", i);
